@@ -10,13 +10,20 @@ import (
 
 	eth2client "github.com/attestantio/go-eth2-client"
 	"github.com/attestantio/go-eth2-client/api"
+	apiv1deneb "github.com/attestantio/go-eth2-client/api/v1/deneb"
 	"github.com/attestantio/go-eth2-client/spec"
 	"github.com/attestantio/go-eth2-client/spec/bellatrix"
 	"github.com/attestantio/go-eth2-client/spec/capella"
+	"github.com/attestantio/go-eth2-client/spec/deneb"
 	"github.com/attestantio/go-eth2-client/spec/phase0"
 	"github.com/attestantio/vouch/internal/vnd"
 	"github.com/attestantio/vouch/internal/vstub"
+	"github.com/holiman/uint256"
 )
+
+// c07Fork: the data version of the proposals of a run, one of c07Forks.
+var c07Fork spec.DataVersion
+var c07Forks = []spec.DataVersion{spec.DataVersionCapella}
 
 type c07Node struct {
 	name     string
@@ -81,9 +88,26 @@ var c07Values = []string{"35000000000000000", "3000000000000000000", "1844674407
 // value is one of four totals up to 20 ETH, an error, or a proposal with a zero
 // fee recipient): returns within its timeout; the answer is a valid proposal a
 // node gave, with the highest total value among those received by the decision.
-func VerifC07_ProposalBest() {
-	timeout := time.Duration(vnd.I64("timeout"))
-	vnd.Assume(timeout >= 2 && timeout <= 60000) // virtual nanoseconds
+func VerifC07_ProposalBest() { c07ProposalBest() }
+
+// VerifC07_ProposalForks: the same two nodes answering one after the other well within the timeout,
+// on each fork that has an execution payload (Bellatrix, Capella, Deneb): the validity rules - fee
+// recipient not zero, nothing missing - hold for the proposals of every one of them.
+func VerifC07_ProposalForks() {
+	c07Forks = []spec.DataVersion{spec.DataVersionBellatrix, spec.DataVersionCapella, spec.DataVersionDeneb}
+	c07Lean = true
+	c07ProposalBest()
+}
+
+// c07Lean: fixed instants (node-a after 1, node-b after 2, timeout 100) instead of symbolic ones.
+var c07Lean bool
+
+func c07ProposalBest() {
+	timeout := time.Duration(100)
+	if !c07Lean {
+		timeout = time.Duration(vnd.I64("timeout"))
+		vnd.Assume(timeout >= 2 && timeout <= 60000) // virtual nanoseconds
+	}
 	ct := vstub.NewChainTime(0)
 	providers := map[string]eth2client.ProposalProvider{}
 	const n = 2
@@ -91,8 +115,12 @@ func VerifC07_ProposalBest() {
 	totals := make([]*big.Int, n)
 	for i := 0; i < n; i++ {
 		nd := &c07Node{name: []string{"node-a", "node-b"}[i]}
-		nd.latency = time.Duration(vnd.I64("latency"))
-		vnd.Assume(nd.latency >= 0 && nd.latency <= 120000)
+		if c07Lean {
+			nd.latency = time.Duration(i + 1)
+		} else {
+			nd.latency = time.Duration(vnd.I64("latency"))
+			vnd.Assume(nd.latency >= 0 && nd.latency <= 120000)
+		}
 		nd.outcome = vnd.Choose("outcome", 4)
 		// node-a: an ordinary or a high value; node-b: any of the four
 		vals := c07Values
@@ -110,15 +138,36 @@ func VerifC07_ProposalBest() {
 		if nd.outcome == 2 {
 			fee = bellatrix.ExecutionAddress{}
 		}
-		nd.proposal = &api.VersionedProposal{Version: spec.DataVersionCapella, ConsensusValue: cons, ExecutionValue: exec,
-			Capella: &capella.BeaconBlock{Slot: 5, ProposerIndex: phase0.ValidatorIndex(i), Body: &capella.BeaconBlockBody{ETH1Data: &phase0.ETH1Data{}, SyncAggregate: nil, ExecutionPayload: &capella.ExecutionPayload{FeeRecipient: fee}}}}
-		if nd.outcome == 3 {
-			// a hollow answer: version and values stated, the block, its body or its execution payload absent
-			// (node-a: no block at all; node-b: a block whose body has no execution payload)
-			if i == 0 {
-				nd.proposal.Capella = nil
-			} else {
-				nd.proposal.Capella.Body.ExecutionPayload = nil
+		// the chain's current fork (the same for both nodes): every fork with an execution payload has a
+		// fee recipient, and the validity rule applies to each
+		if i == 0 {
+			c07Fork = c07Forks[vnd.Choose("fork", len(c07Forks))]
+		}
+		hollow := nd.outcome == 3
+		nd.proposal = &api.VersionedProposal{Version: c07Fork, ConsensusValue: cons, ExecutionValue: exec}
+		// a hollow answer: version and values stated, the block, its body or its execution payload absent
+		// (node-a: no block at all; node-b: a block whose body has no execution payload)
+		switch c07Fork {
+		case spec.DataVersionBellatrix:
+			if !(hollow && i == 0) {
+				nd.proposal.Bellatrix = &bellatrix.BeaconBlock{Slot: 5, ProposerIndex: phase0.ValidatorIndex(i), Body: &bellatrix.BeaconBlockBody{ETH1Data: &phase0.ETH1Data{}, ExecutionPayload: &bellatrix.ExecutionPayload{FeeRecipient: fee}}}
+				if hollow {
+					nd.proposal.Bellatrix.Body.ExecutionPayload = nil
+				}
+			}
+		case spec.DataVersionCapella:
+			if !(hollow && i == 0) {
+				nd.proposal.Capella = &capella.BeaconBlock{Slot: 5, ProposerIndex: phase0.ValidatorIndex(i), Body: &capella.BeaconBlockBody{ETH1Data: &phase0.ETH1Data{}, ExecutionPayload: &capella.ExecutionPayload{FeeRecipient: fee}}}
+				if hollow {
+					nd.proposal.Capella.Body.ExecutionPayload = nil
+				}
+			}
+		case spec.DataVersionDeneb:
+			if !(hollow && i == 0) {
+				nd.proposal.Deneb = &apiv1deneb.BlockContents{Block: &deneb.BeaconBlock{Slot: 5, ProposerIndex: phase0.ValidatorIndex(i), Body: &deneb.BeaconBlockBody{ETH1Data: &phase0.ETH1Data{}, ExecutionPayload: &deneb.ExecutionPayload{FeeRecipient: fee, BaseFeePerGas: uint256.NewInt(1)}}}}
+				if hollow {
+					nd.proposal.Deneb.Block.Body.ExecutionPayload = nil
+				}
 			}
 		}
 		nodes[i] = nd
